@@ -190,6 +190,100 @@ async fn test_list_objects_v2() -> Result<()> {
 
 #[tokio::test]
 #[tracing::instrument]
+async fn test_list_objects_v2_delimiter_and_max_keys() -> Result<()> {
+    let c = Client::new(config());
+    let bucket = format!("test-list-objects-v2-pages-{}", Uuid::new_v4());
+    let bucket_str = bucket.as_str();
+    create_bucket(&c, bucket_str).await?;
+
+    for key in ["a.txt", "dir/b.txt", "dir/c.txt", "dir2/d.txt", "e.txt"] {
+        c.put_object()
+            .bucket(bucket_str)
+            .key(key)
+            .body(ByteStream::from_static(b"hello"))
+            .send()
+            .await?;
+    }
+
+    // keys below the delimiter are rolled up into common prefixes
+    {
+        let response = c.list_objects_v2().bucket(bucket_str).delimiter("/").send().await?;
+        let keys: Vec<_> = response.contents().iter().filter_map(|obj| obj.key()).collect();
+        let prefixes: Vec<_> = response.common_prefixes().iter().filter_map(|p| p.prefix()).collect();
+        assert_eq!(keys, ["a.txt", "e.txt"]);
+        assert_eq!(prefixes, ["dir/", "dir2/"]);
+        assert_eq!(response.key_count(), Some(4));
+        assert_eq!(response.is_truncated(), Some(false));
+    }
+
+    // the prefix is a plain string prefix
+    {
+        let response = c
+            .list_objects_v2()
+            .bucket(bucket_str)
+            .prefix("dir")
+            .delimiter("/")
+            .send()
+            .await?;
+        let prefixes: Vec<_> = response.common_prefixes().iter().filter_map(|p| p.prefix()).collect();
+        assert!(response.contents().is_empty());
+        assert_eq!(prefixes, ["dir/", "dir2/"]);
+
+        let response = c.list_objects_v2().bucket(bucket_str).prefix("dir//").send().await?;
+        assert_eq!(response.key_count(), Some(0));
+    }
+
+    // max-keys cuts the listing; the continuation token leads through all pages
+    {
+        let mut seen: Vec<String> = Vec::new();
+        let mut token: Option<String> = None;
+        loop {
+            let response = c
+                .list_objects_v2()
+                .bucket(bucket_str)
+                .delimiter("/")
+                .max_keys(1)
+                .set_continuation_token(token.take())
+                .send()
+                .await?;
+            assert_eq!(response.key_count(), Some(1));
+            assert_eq!(response.max_keys(), Some(1));
+            seen.extend(response.contents().iter().filter_map(|obj| obj.key()).map(ToOwned::to_owned));
+            seen.extend(
+                response
+                    .common_prefixes()
+                    .iter()
+                    .filter_map(|p| p.prefix())
+                    .map(ToOwned::to_owned),
+            );
+            if response.is_truncated() != Some(true) {
+                break;
+            }
+            token = response.next_continuation_token().map(ToOwned::to_owned);
+            assert!(token.is_some());
+        }
+        assert_eq!(seen, ["a.txt", "dir/", "dir2/", "e.txt"]);
+    }
+
+    // list_objects pages with markers
+    {
+        let response = c.list_objects().bucket(bucket_str).max_keys(3).send().await?;
+        let keys: Vec<_> = response.contents().iter().filter_map(|obj| obj.key()).collect();
+        assert_eq!(keys, ["a.txt", "dir/b.txt", "dir/c.txt"]);
+        assert_eq!(response.is_truncated(), Some(true));
+        let marker = response.next_marker().map(ToOwned::to_owned);
+
+        let response = c.list_objects().bucket(bucket_str).set_marker(marker).send().await?;
+        let keys: Vec<_> = response.contents().iter().filter_map(|obj| obj.key()).collect();
+        assert_eq!(keys, ["dir2/d.txt", "e.txt"]);
+        assert_eq!(response.is_truncated(), Some(false));
+    }
+
+    Ok(())
+}
+
+#[tokio::test]
+#[tracing::instrument]
 async fn test_single_object() -> Result<()> {
     let _guard = serial().await;
 
